@@ -91,6 +91,8 @@ def check(case: Dict[str, Any]) -> CaseInfo:
             classes.append("activity_without_id")
         if n_pair and n_missing and n_sync_m1:
             nontrivial = True
+        if any(r.correlation == 0 and want[r.id] > 0 for r in rows):
+            classes.append("pair_with_correlation_id_0")
     classes.append("parse_only" if case["parse_only"] else "full_load")
     if case.get("big"):
         classes.append("positions_above_127_with_small_correlation_ids")
@@ -122,6 +124,20 @@ def c02_case(draw):
                         if isinstance(a.get(key), int) and a[key] > 0:
                             a[key] += off
     case["huge_corr"] = huge
+    # correlation id 0 is an id like any other (only -1 means "no id"): one case in six renames one id of every rank to 0
+    if not huge and draw(st.sampled_from([True] + [False] * 5)):
+        for rd in case["ranks"]:
+            ids = sorted({e["args"]["correlation"] for e in rd["events"] if isinstance(e.get("args"), dict)
+                          and isinstance(e["args"].get("correlation"), int) and e["args"]["correlation"] > 0})
+            if not ids or any(isinstance(e.get("args"), dict) and e["args"].get("correlation") == 0 for e in rd["events"]):
+                continue
+            victim = ids[draw(st.integers(0, len(ids) - 1))]
+            for e in rd["events"]:
+                a = e.get("args")
+                if isinstance(a, dict):
+                    for key in ("correlation", "wait_on_cuda_event_record_corr_id"):
+                        if a.get(key) == victim and isinstance(a.get(key), int):
+                            a[key] = 0
     return case
 
 
